@@ -158,6 +158,13 @@ func runC03(ctx *core.Ctx, idx int) *core.Result {
 						if recvForm {
 							fill.Meta[m.Name] = "mk()" + ".Target(" + strings.TrimPrefix(strings.Repeat(", "+g.Atom(), nm-1), ", ") + ")"
 						}
+						// ... or strictly inside it (the binding is larger than the nested instance)
+						switch r.Intn(4) {
+						case 0:
+							fill.Meta[m.Name] = "retry(3, " + fill.Meta[m.Name] + ")"
+						case 1:
+							fill.Meta[m.Name] = "pick(" + fill.Meta[m.Name] + ").Field"
+						}
 					case 2:
 						if recvForm {
 							fill.Meta[m.Name] = g.Primary(1, nil)
